@@ -38,7 +38,8 @@ func verifReasonOf(r Reason, kind int) bool {
 //
 //verif:unwind 16
 //verif:rand concrete
-//verif:preempt 2
+//verif:preempt.quick 1
+//verif:preempt.thorough 2
 //verif:visops 120
 func verifH_C06_causes() {
 	w := verifServerWorld("/")
